@@ -582,8 +582,13 @@ impl Model {
                 }
             }
             Stmt::DropTable { name } => {
-                if self.name_taken(name) {
+                // `DROP TABLE a, b` is written as the name "a, b"
+                let names: Vec<&str> = name.split(", ").collect();
+                let distinct = names.iter().collect::<std::collections::BTreeSet<_>>().len() == names.len();
+                if names.iter().all(|n| self.name_taken(n)) && distinct {
                     Expect::Ok
+                } else if names.len() > 1 {
+                    Expect::Unknown
                 } else {
                     Expect::Err("no such table")
                 }
@@ -662,8 +667,10 @@ impl Model {
                 self.tables.insert(d.name.clone(), (d.clone(), vec![]));
             }
             Stmt::DropTable { name } => {
-                if self.tables.remove(name).is_none() {
-                    self.views.remove(name);
+                for n in name.split(", ") {
+                    if self.tables.remove(n).is_none() {
+                        self.views.remove(n);
+                    }
                 }
             }
             Stmt::CreateView { name, of, .. } => {
